@@ -39,6 +39,10 @@ type c14Case struct {
 	// Normal: the packets carry the type NORMAL (15), the one used for ordinary traffic on
 	// logical channels, instead of RESPONSE (4)
 	Normal bool `json:"packet_type_normal,omitempty"`
+	// Further: how many more receive calls follow the one that reported the failure (0 = 3): a
+	// consumer that retries, several goroutines or channels probing a dead connection - more
+	// calls than the connection's error queue holds (10) among them
+	Further int `json:"further_receive_calls,omitempty"`
 }
 
 func failErr(kind string) error {
@@ -269,7 +273,12 @@ func runCaseOnce(c c14Case) (f *vh.Failure) {
 	}
 	// a consumer that asks again must not block either:
 	// the transport stays failed
-	for i := 0; i < 3; i++ {
+	further := 3
+	if c.Further > 0 {
+		further = c.Further
+		vh.Label(fmt.Sprintf("further-receive-calls:%d", c.Further))
+	}
+	for i := 0; i < further; i++ {
 		t1 := time.Now()
 		wctx, wcancel := context.WithTimeout(ctx, bound)
 		p, err := ch.NextPackage(wctx, true)
@@ -356,7 +365,7 @@ func TestEveryOffset(t *testing.T) {
 		for k := 0; k <= total; k++ {
 			for _, kind := range []string{"eof", "reset", "timeout", "eof-with-data", "wrapped-eof", "wrapped-eof-with-data"} {
 				n++
-				cs := c14Case{Pkgs: ps, Cuts: cuts, K: k, Kind: kind, Timeout: 0, Poll: n%3 == 0, Normal: (n/6+i)%2 == 1}
+				cs := c14Case{Pkgs: ps, Cuts: cuts, K: k, Kind: kind, Timeout: 0, Poll: n%3 == 0, Normal: (n/6+i)%2 == 1, Further: []int{0, 0, 0, 12, 0, 0, 25}[n%7]}
 				if n%5 == 0 {
 					cs.WriteFault = 1 + n/5%3
 				}
@@ -377,7 +386,7 @@ func TestRandomFaults(t *testing.T) {
 		ps, cuts := genResp(rt)
 		stream, _, _, _ := rc.EncodeStream(ps)
 		total := len(stream) + 8*(len(cuts)+1)
-		c := c14Case{Pkgs: ps, Cuts: cuts, K: rapid.IntRange(0, total).Draw(rt, "k"), Kind: rapid.SampledFrom([]string{"eof", "reset", "timeout", "eof-with-data", "wrapped-eof", "wrapped-eof-with-data"}).Draw(rt, "kind"), Timeout: 0, Poll: rapid.Bool().Draw(rt, "poll"), Normal: rapid.Bool().Draw(rt, "normal")}
+		c := c14Case{Pkgs: ps, Cuts: cuts, K: rapid.IntRange(0, total).Draw(rt, "k"), Kind: rapid.SampledFrom([]string{"eof", "reset", "timeout", "eof-with-data", "wrapped-eof", "wrapped-eof-with-data"}).Draw(rt, "kind"), Timeout: 0, Poll: rapid.Bool().Draw(rt, "poll"), Normal: rapid.Bool().Draw(rt, "normal"), Further: rapid.SampledFrom([]int{0, 0, 0, 11, 15, 40}).Draw(rt, "further")}
 		if rapid.IntRange(0, 3).Draw(rt, "writefault") == 0 {
 			c.WriteFault = rapid.IntRange(1, 3).Draw(rt, "failat")
 		}
